@@ -283,6 +283,37 @@ def generate(seed, tier):
             else:
                 ops.append("ll %s" % o)
         cases.append(["case bad%d n=%d T=%d" % (i, n, T)] + ops)
+    # ---- tm: the built-in transition models
+    n_tm = 200 if thorough else 40
+    for i in range(n_tm):
+        kind = "auto" if i % 2 == 0 else "full"
+        n = rng.randint(2, 5) if kind == "auto" else rng.randint(2, 4)
+        ops = ["tm a %s %d" % (kind, n)]
+        for _ in range(rng.randint(3, 14)):
+            u = rng.random()
+            if u < 0.35:
+                if kind == "auto":
+                    w = rng.random()
+                    v = rng.choice([0.0, 1.0, 1.5, -0.1, 0.95]) if w < 0.12 else rng.uniform(0.01, 0.99) if w < 0.9 else 1 - 10.0 ** (-rng.uniform(3, 12))
+                    name = "lambda%d" % rng.randint(1, n) if rng.random() < 0.93 else rng.choice(["lambda0", "lambda%d" % (n + 1), "mu1"])
+                    ops.append("tmset a %s %s" % (name, h(v)))
+                else:
+                    P = []
+                    for _r in range(n):
+                        r = [rng.random() + 0.05 for _ in range(n)]
+                        sm = sum(r)
+                        P += [x / sm for x in r]
+                    ops.append("tmsetP a " + " ".join(h(x) for x in P))
+            elif u < 0.6:
+                ops.append("tmpij a")
+            elif u < 0.85:
+                ops.append("tmeq a")
+            elif u < 0.93 and kind == "auto":
+                ops.append("tmPij a %d %d" % (rng.randrange(n), rng.randrange(n)))
+            else:
+                ops += ["tmclone a b", rng.choice(["tmeq b", "tmpij b"])]
+        ops += ["tmpij a", "tmeq a"] if rng.random() < 0.5 else ["tmeq a", "tmpij a"]
+        cases.append(["case tm%d %s n=%d" % (i, kind, n)] + ops)
     return cases
 
 
